@@ -156,6 +156,42 @@ theorem truth_tip (ih : Int) (hih : 1 ≤ ih) (valz : List Val) (s0 : Sys)
   let hi := inv_run s0 (inv_init ih hih valz s0 h0) evs hs
   ⟨hi.rec_tip, hi.base_le⟩
 
+/-- **rpc_validators_exact.** What the `/validators` RPC reports under height `h` (latest or
+explicit, node caught up or block-syncing) is exactly the set in force at `h`, for every retained
+`h`: the reported height never exceeds the tip and the set is `LoadValidators h`. -/
+theorem rpc_validators_exact (s : Sys) (hi : Inv s) (syncing : Bool) (h : Option Int) (x : Int)
+    (r : LoadRes) (hr : rpcValidators s.db s.st syncing h = some (x, r)) (hb : s.base ≤ x) :
+    ∃ v, s.truth x = some v ∧ r = .ok v := by
+  unfold rpcValidators at hr
+  cases hh : rpcHeight s.st syncing h with
+  | none => rw [hh] at hr; cases hr
+  | some y =>
+    rw [hh] at hr
+    simp only [Option.map_some, Option.some.injEq, Prod.mk.injEq] at hr
+    obtain ⟨e1, e2⟩ := hr
+    subst e1
+    have hle : y ≤ tip s.st := by
+      have h0 := hi.lbh_nonneg
+      have h1 := hi.ih_pos
+      have hlat : (if syncing = true then s.st.lastBlockHeight else s.st.lastBlockHeight + 1)
+          ≤ s.st.lastBlockHeight + 1 := by split <;> omega
+      have hy : y ≤ s.st.lastBlockHeight + 1 := by
+        unfold rpcHeight at hh
+        simp only at hh
+        cases h with
+        | none => simp only [Option.some.injEq] at hh; omega
+        | some z =>
+          simp only at hh
+          by_cases hc : z ≤ 0 ∨ z > (if syncing = true then s.st.lastBlockHeight else s.st.lastBlockHeight + 1) ∨
+              z < s.st.initialHeight
+          · simp only [hc, if_true] at hh; cases hh
+          · simp only [hc, if_false, Option.some.injEq] at hh
+            omega
+      unfold tip blockHeight
+      split <;> omega
+    obtain ⟨v, hv1, hv2⟩ := load_of_inv s hi y hb hle
+    exact ⟨v, hv1, by rw [← e2, hv2]⟩
+
 /-- the history of the replayed scenario: two validators, a third joins in block 5, block 6 is
 rolled back -/
 def rollbackWitness : Option Sys :=
